@@ -48,6 +48,29 @@ def junction_orphan(c):
     return False
 
 
+def metric_value_filters(q):
+    """the query's filters if ALL of them compare one of the requested metrics with a number (they apply to the joint,
+    aggregated rows), else None"""
+    out = []
+    for f in q["filters"]:
+        if f.get("k") == "bin" and f.get("op") in ("gt", "ge", "lt", "le") and f["a"].get("k") == "col" and f["a"]["n"] in q["metrics"] \
+                and f["b"].get("k") == "lit" and isinstance(f["b"].get("v"), (int, float)):
+            out.append((f["a"]["n"], f["op"], f["b"]["v"]))
+        else:
+            return None
+    return out
+
+
+def keep_row(row, nd, names, mvf):
+    import operator
+    ops = {"gt": operator.gt, "ge": operator.ge, "lt": operator.lt, "le": operator.le}
+    for ref, op, lit in mvf:
+        v = row[nd + names.index(ref)]
+        if v is None or not ops[op](v, lit):
+            return False
+    return True
+
+
 def classify(c):
     q, models = c["query"], {m["name"]: m for m in c["models"]}
     if junction_orphan(c):
@@ -63,7 +86,7 @@ def classify(c):
         for col in c01.filter_cols(f):
             if col.split(".")[0] not in mms:
                 return "F4-filter-on-non-metric-model"
-    if q["filters"]:
+    if q["filters"] and metric_value_filters(q) is None:
         return "F4b-filter-not-shared-between-subqueries"
     return None
 
@@ -132,8 +155,9 @@ def run(ck: Check):
         q = c["query"]
         mms = list(dict.fromkeys(x.split(".")[0] for x in q["metrics"]))
         parts, ok = [], True
+        mvf = metric_value_filters(q) if q["filters"] else None      # metric-value filters apply to the joint rows
         for mn in mms:
-            sub = dict(q, metrics=[x for x in q["metrics"] if x.split(".")[0] == mn])
+            sub = dict(q, metrics=[x for x in q["metrics"] if x.split(".")[0] == mn], filters=[] if mvf else q["filters"])
             rr = M.run_real(c["_layer"], sub)
             if rr["outcome"] != "ok":
                 ok = False
@@ -146,6 +170,9 @@ def run(ck: Check):
         want = outer_union(parts, nd)
         # joint column order: dims, then metrics grouped by model in first-appearance order
         order = [i for mn in mms for i, x in enumerate(q["metrics"]) if x.split(".")[0] == mn]
+        if mvf:
+            want = [w for w in want if keep_row(w, nd, [q["metrics"][i] for i in order], mvf)]
+            stats["metric_value_filter_cases"] += 1
         jr = c01.canon_rows(r["rows"], [False] * len(r["columns"]))
         if a.get("path") == "joined":
             jr = [tuple(list(row[:nd]) + [row[nd + i] for i in order]) for row in jr]
@@ -175,8 +202,9 @@ def run(ck: Check):
                 if r["outcome"] != "ok":
                     continue
                 parts, ok = [], True
+                mvf = metric_value_filters(q) if q["filters"] else None
                 for mn in mms:
-                    sub = dict(q, metrics=[x for x in q["metrics"] if x.split(".")[0] == mn])
+                    sub = dict(q, metrics=[x for x in q["metrics"] if x.split(".")[0] == mn], filters=[] if mvf else q["filters"])
                     rr = M.run_real(layer, sub)
                     if rr["outcome"] != "ok":
                         ok = False
@@ -187,6 +215,9 @@ def run(ck: Check):
                 stats["search_cases"] += 1
                 nd = len(q["dims"])
                 want = outer_union(parts, nd)
+                if mvf:
+                    names = [q["metrics"][i] for mn in mms for i, x in enumerate(q["metrics"]) if x.split(".")[0] == mn]
+                    want = [w for w in want if keep_row(w, nd, names, mvf)]
                 jr = c01.canon_rows(r["rows"], [False] * len(r["columns"]))
                 if "_preagg AS" not in r["sql"]:
                     order = [i for mn in mms for i, x in enumerate(q["metrics"]) if x.split(".")[0] == mn]
